@@ -253,6 +253,14 @@ impl HalfConnection {
             let new_bytes = (send_rate * delta_time).round() as isize;
             let alloc_max = (send_rate * rtt_s.unwrap_or(0.0)).round() as isize;
 
+            if new_bytes == 0 && self.flush_alloc < alloc_max {
+                // Less than one byte of credit has accrued since the last refill. Keep the
+                // time base so that the elapsed time is not lost: at low send rates (or short
+                // step intervals) rounding every increment to zero would otherwise stall the
+                // connection forever.
+                return;
+            }
+
             self.flush_alloc = self.flush_alloc.saturating_add(new_bytes).min(alloc_max);
 
             //println!("dt: {}s, rtt: {:?}s, rate: {}B/s, new: {}B, max: {}B, val: {}B",
